@@ -279,7 +279,7 @@ Init == l = 1
 Next == /\ l <= Len(Rec)
         /\ l' = l + 1
         /\ LET f == Fails(Rec[l]) IN
-             f = {} \/ PrintT(<<"FAIL", l, Rec[l].case, Rec[l].op, f>>)
+             IF f = {} THEN TRUE ELSE PrintT(<<"FAIL", l, Rec[l].case, Rec[l].op, f>>)
 Spec == Init /\ [][Next]_l
 \* a silently truncated run must not count as a pass
 Complete == PrintT(<<"DONE", TLCGet("stats").diameter - 1, Len(Rec)>>)
